@@ -125,6 +125,11 @@ pub fn plant_near(rng: &mut Rng, buf: &mut [u8], positions: &[usize]) {
 
 /// Message lengths for codec workloads under the production limits.
 pub fn prod_length(rng: &mut Rng, max: usize) -> usize {
+    if rng.chance(1, 25) {
+        // right around a power of two
+        let k = rng.range(12, 17);
+        return ((1usize << k) + rng.range(0, 6) - 3).min(max);
+    }
     let l = match rng.below(100) {
         0..=14 => rng.range(0, 8),
         15..=34 => rng.range(248, 258),
